@@ -84,7 +84,8 @@ Definition gen_matches (sc1 sc2 : Q) (g : tsg) (o : gen_obs) : bool :=
   Z.eqb (g_start g) (go_start o) && Z.eqb (g_now g) (go_now o) &&
   Qeq_bool (uq (pr_raw (g_pr g))) (go_raw o) &&
   C17.obs_matches_gen false sc1 sc2 (pr_total (g_pr g)) (go_total o) &&
-  C17.obs_matches_gen false sc1 sc2 (pr_losses (g_pr g)) (go_losses o).
+  C17.obs_matches_gen false sc1 sc2 (pr_losses (g_pr g)) (go_losses o) &&
+  C17.obs_inv (go_total o) && C17.obs_inv (go_losses o).
 
 (** tolerant comparison of a dataset (inputs are exact returns, the implementation's are rounded) *)
 Definition ds_close (sc1 sc2 : Q) (s : ds) (o : dsobs) : bool :=
@@ -113,16 +114,20 @@ Definition ret_close (p : pos_in) : bool :=
 Definition tsg_update_obs (g : tsg) (p : pos_in) (r : Q) : tsg :=
   mkTsg (g_start g) (pi_time p) (pr_update_r (g_pr g) (qc (pi_pnl p)) (qc r)).
 
-Fixpoint corr_sheet (sc1 sc2 : Q) (g : tsg) (ps : list pos_in)
+(** [gx]: the model generator fed with the positions themselves (exact returns): the generated
+    sheet is compared with its sheet, within tolerance.  [g]: the model generator fed with the
+    returns the implementation computed: the stored datasets are compared with its datasets. *)
+Fixpoint corr_sheet (sc1 sc2 : Q) (gx g : tsg) (ps : list pos_in)
          (steps : list (option (sheet_obs * gen_obs))) : bool :=
   match ps, steps with
   | [], [] => true
   | p :: ps', Some (sh, go) :: steps' =>
       match pi_ret p with
       | Some r =>
+          let gx' := tsg_update gx (pos_of p) in
           let g' := tsg_update_obs g p r in
-          ret_close p && sheet_matches 0 (tsg_generate g') sh && gen_matches sc1 sc2 g' go &&
-          corr_sheet sc1 sc2 g' ps' steps'
+          ret_close p && sheet_matches 0 (tsg_generate gx') sh && gen_matches sc1 sc2 g' go &&
+          corr_sheet sc1 sc2 gx' g' ps' steps'
       | None => false
       end
   | p :: _, [None] => negb (pos_in_ok p)          (* division by zero panics; nothing follows *)
@@ -216,7 +221,7 @@ Definition corr_b (c : case) : bool :=
   | CSheet t0 ps g0 sh0 steps =>
       let rs := obs_rets ps in
       gen_matches 0 0 (tsg_init t0) g0 && sheet_matches 0 (tsg_generate (tsg_init t0)) sh0 &&
-      corr_sheet (C17.scale1 rs) (C17.scale2 rs) (tsg_init t0) ps steps
+      corr_sheet (C17.scale1 rs) (C17.scale2 rs) (tsg_init t0) (tsg_init t0) ps steps
   | CSummary mode t0 insts assets ops s0 steps final =>
       let times := N.eqb mode 0 in
       let s := init_sgen t0 insts assets in
@@ -253,7 +258,7 @@ Definition sheet_ok (scp : Q) (ps : list pos) (o : sheet_obs) : bool :=
     returns and of the negative ones *)
 Definition dataset_ok (sc1 sc2 : Q) (rs : list Q) (o : dsobs) : bool :=
   match rs with
-  | [] => C17.empty_ok o
+  | [] => C17.empty_ok_gen false sc1 o
   | _ => C17.batch_ok_gen false sc1 sc2 (map qc rs) o
   end.
 
@@ -325,8 +330,8 @@ Definition prop_b (c : case) : bool :=
   match c with
   | CSheet t0 ps g0 sh0 steps =>
       let rs := obs_rets ps in
-      sheet_ok 0 [] sh0 && Qeq_bool (go_raw g0) 0 && C17.empty_ok (go_total g0) &&
-      C17.empty_ok (go_losses g0) &&
+      sheet_ok 0 [] sh0 && Qeq_bool (go_raw g0) 0 && C17.empty_ok_gen false 0 (go_total g0) &&
+      C17.empty_ok_gen false 0 (go_losses g0) &&
       prop_sheet t0 (C17.scale1 rs) (C17.scale2 rs) [] ps steps
   | CSummary mode t0 insts assets ops s0 steps final =>
       let scp := pnl_scale (all_pos ops) in
